@@ -18,6 +18,7 @@ import re
 import tla
 import vcheck
 
+HIST = {}      # history number -> its calls (for replay files)
 BLOCKING = ("stall", "progStall", "flat", "progForever")
 OBEH = ["ok", "ok", "err", "drop", "stall"]
 
@@ -29,9 +30,29 @@ def parse_cases(out):
         p.i = m.start()
         v = p.value()
         inp, beh = v[1], v[2]
-        cases.append({"op": inp["op"], "mode": inp["mode"], "upd": inp["upd"], "norig": 0,
-                      "prior": inp["prior"], "intf": inp["intf"], "cancel": inp["cancel"], "beh": list(beh)})
+        cases.append(case_of(inp, beh))
     return cases
+
+
+def case_of(inp, beh):
+    return {"op": inp["op"], "mode": inp["mode"], "d": inp["d"], "upd": inp["upd"], "norig": 0, "prior": inp["prior"],
+            "pheld": inp["pheld"], "intf": inp["intf"], "cancel": inp["cancel"], "beh": list(beh)}
+
+
+def parse_histories(out):
+    """<<"HIST", <<[inp, behs, t], ...>>>> printed by IPFSConnHist at the end of every history."""
+    hs = []
+    for m in re.finditer(r'<<\s*"HIST"', out):
+        p = tla._P(out)
+        p.i = m.start()
+        v = p.value()
+        calls = []
+        for k in v[1]:
+            c = case_of(k["inp"], k["behs"])
+            c["t"] = k["t"]
+            calls.append(c)
+        hs.append(calls)
+    return hs
 
 
 def decorate(c, rng, i, origins=None):
@@ -41,7 +62,6 @@ def decorate(c, rng, i, origins=None):
     c["id"] = i
     c["norig"] = 0
     c["obeh"] = []
-    c["depth"] = rng.choice([1, 2, 5])
     c["swapv"] = rng.random() < 0.5
     if c["op"] == "pin":
         if origins is None:
@@ -126,11 +146,41 @@ def run(ctx):
             cases.append(decorate(c, rng, len(cases) + 1, origins=[0]))
             if c["op"] == "pin":
                 cases.append(decorate(c, rng, len(cases) + 1, origins=[1, 2, 2, 3, 12]))
+    # histories on one Connector (IPFSConnHist: also model-checked, every predicate at the end of every call)
+    r = ctx.tlc("IPFSConnHist.tla", "IPFSConnHist.cfg", workers=1, timeout=1500)
+    allh = parse_histories(r.out)
+    if len(allh) < 100:
+        raise vcheck.Infra("history generation produced only %d histories" % len(allh))
+    allh.sort(key=lambda h: json.dumps(h, sort_keys=True))
+    ctx.extra["histories_in_model"] = len(allh)
+    if ctx.quick():
+        plain = [h for h in allh if len(h) == 3 and all(b == "ok" for c in h for b in c["beh"])]   # the 24 orders
+        rest = [h for h in allh if h not in plain]
+        rng.shuffle(rest)
+        hists = plain + rest[:120]
+    else:
+        plain = []
+        hists = allh
+    nid = len(cases)
+    hlines = []
+    for hn, h in enumerate(hists):
+        calls = []
+        for c in h:
+            nid += 1
+            c = dict(c, id=nid, hist=hn + 1, norig=0, obeh=[], ohang=False, swapv=False, nontrivial=True)
+            calls.append(c)
+        # the plain orders (and, thorough, some more) run in a process of their own: a Connector that has made
+        # no other call before, as in a cluster peer
+        cold = (h in plain) if ctx.quick() else (hn % 16 == 0 or len(h) == 3)
+        hlines.append({"id": calls[0]["id"], "calls": calls, "cold": cold})
+        HIST[hn + 1] = calls
     inp = os.path.join(ctx.work, "c16_cases.ndjson")
     with open(inp, "w") as f:
         for c in cases:
             f.write(json.dumps(c) + "\n")
-    ctx.log("scripts: %d of %d" % (len(cases), len(allc)))
+        for h in hlines:
+            f.write(json.dumps(h) + "\n")
+    ctx.log("scripts: %d of %d, histories: %d of %d (%d calls)" % (len(cases), len(allc), len(hists), len(allh), nid - len(cases)))
     # R
     trace = os.path.join(ctx.work, "c16_obs.ndjson")
     ctx.go_test("c16_ipfsconn", run="TestDriver", infile=inp, env={"VERIF_TRACE": trace}, timeout=2400)
@@ -164,7 +214,8 @@ def validate(ctx, trace):
         for pred in sorted(bad[i]):
             ctx.violation(key_of(pred, rec), "%s broken: %s on c1 (prior %s) with daemon behaviours %s returned %s, daemon "
                           "holds %s" % (pred, rec["in"]["op"], json.dumps(rec["in"]["prior"]), rec["in"]["beh"],
-                                        rec["out"]["res"], json.dumps(rec["out"]["pins"])), rec)
+                                        rec["out"]["res"], json.dumps(rec["out"]["pins"])),
+                          dict(rec, history=HIST.get(rec.get("hist"))) if rec.get("hist") else rec)
     drift_only = [i for i in drift if i not in bad]
     if len(drift_only) > max(10, len(recs) // 50):
         print("SPEC-DRIFT examples: %s" % json.dumps([recs[i - 1] for i in drift_only[:3]]), flush=True)
@@ -183,10 +234,15 @@ def replay(ctx, path):
     if not case or "in" not in case:
         raise vcheck.Infra("replay file has no recorded script")
     inp = os.path.join(ctx.work, "c16_replay.ndjson")
-    c = dict(case["in"])
-    c["id"] = case.get("id", 1)
-    c["nontrivial"] = True
-    open(inp, "w").write(json.dumps(c) + "\n")
+    if case.get("history"):
+        # a call of a history: the whole history runs again on one Connector
+        HIST[case.get("hist", 1)] = case["history"]
+        open(inp, "w").write(json.dumps({"id": case["history"][0]["id"], "calls": case["history"]}) + "\n")
+    else:
+        c = dict(case["in"])
+        c["id"] = case.get("id", 1)
+        c["nontrivial"] = True
+        open(inp, "w").write(json.dumps(c) + "\n")
     trace = os.path.join(ctx.work, "c16_obs.ndjson")
     ctx.go_test("c16_ipfsconn", run="TestDriver", infile=inp, env={"VERIF_TRACE": trace}, timeout=600)
     validate(ctx, trace)
